@@ -349,34 +349,40 @@ func TestColdConcurrentConstruction(t *testing.T) {
 		items[i], items[j] = items[j], items[i]
 	}
 	const perItem, inFlight = 3, 2
-	type task struct {
-		it coldItem
-		g  int
-	}
-	tasks := make(chan task)
-	var wg sync.WaitGroup
+	// Per item three FRESH goroutines wait on one channel and are released together by close(): a
+	// pool of workers taking tasks from a channel let one worker run all three tasks of a fast item
+	// one after the other. Two items are in flight (semaphore); the goroutines of one item share
+	// nothing of the harness but the start channel (closed before any of them runs) and their
+	// WaitGroup (touched after their work is done).
 	var mu sync.Mutex
 	var failures []string
-	for w := 0; w < perItem*inFlight; w++ {
-		wg.Add(1)
-		go func() {
-			defer wg.Done()
-			for tk := range tasks {
-				if err := tk.it.construct(tk.g); err != nil {
-					mu.Lock()
-					failures = append(failures, fmt.Sprintf("%s (goroutine %d): %v", tk.it.name, tk.g, err))
-					mu.Unlock()
-				}
-			}
-		}()
-	}
+	sem := make(chan struct{}, inFlight)
+	var itemsWG sync.WaitGroup
 	for _, it := range items {
-		for g := 0; g < perItem; g++ {
-			tasks <- task{it, g}
-		}
+		sem <- struct{}{}
+		itemsWG.Add(1)
+		go func(it coldItem) {
+			defer itemsWG.Done()
+			defer func() { <-sem }()
+			start := make(chan struct{})
+			var wg sync.WaitGroup
+			for g := 0; g < perItem; g++ {
+				wg.Add(1)
+				go func(g int) {
+					defer wg.Done()
+					<-start
+					if err := it.construct(g); err != nil {
+						mu.Lock()
+						failures = append(failures, fmt.Sprintf("%s (goroutine %d): %v", it.name, g, err))
+						mu.Unlock()
+					}
+				}(g)
+			}
+			close(start)
+			wg.Wait()
+		}(it)
 	}
-	close(tasks)
-	wg.Wait()
+	itemsWG.Wait()
 	sort.Strings(failures)
 	for _, f := range failures {
 		t.Errorf("first use from %d goroutines at once: %s", perItem, f)
